@@ -255,6 +255,68 @@ pub fn planted_key<V: Fv>(vseed: u64, i: usize) -> Option<(V::Sk, V::Pk)> {
     Some((sk, pk))
 }
 
+/// Key generation (`math::ntru_gen`) under a generator that dictates every sample of the given
+/// candidates (f, g), in order; honest afterwards. Returns the polynomials of the key that comes
+/// out and the key imported through its byte encoding. None if the construction is not
+/// possible (coefficients too large for the sample script) or the result is not representable.
+pub fn scripted_key<V: Fv>(vseed: u64, label: &str, cands: &[(Vec<i64>, Vec<i64>)]) -> Option<(Vec<i64>, Vec<i64>, V::Sk, V::Pk)> {
+    use falcon_rust::verif_hooks as vh;
+    use rand::Rng;
+    let n = V::N;
+    let mut rng = crate::util::rng_for(vseed, "c04-script-bytes");
+    let mut bytes: Vec<[u8; 9]> = vec![];
+    for want in 0..=5i16 {
+        let mut tries = 0u64;
+        loop {
+            let b: [u8; 9] = rng.gen();
+            if vh::sampler::base_sampler(b) == want {
+                bytes.push(b);
+                break;
+            }
+            tries += 1;
+            if tries > 50_000_000 {
+                return None;
+            }
+        }
+    }
+    let per = 4096 / n;
+    let mut values: Vec<i16> = vec![];
+    for (f, g) in cands {
+        for p in [f, g] {
+            for &c in p.iter() {
+                let mut rest = c;
+                for s_ in 0..per {
+                    let left = (per - s_) as i64;
+                    let part = if rest >= 0 { (rest + left - 1) / left } else { -((-rest + left - 1) / left) };
+                    values.push(part as i16);
+                    rest -= part;
+                }
+            }
+        }
+    }
+    if values.iter().any(|v| v.abs() > 5) {
+        return None;
+    }
+    let strat = crate::gen::Strategy::ScriptSamples { values, bytes };
+    let mut srng = crate::gen::ScriptedRng::new(vseed, label, strat, 400_000_000);
+    vh::take_keygen_candidates();
+    let out = monitored(move || {
+        let (fo, go, cfo, _cg) = falcon_rust::math::ntru_gen(n, &mut srng);
+        (fo.coefficients, go.coefficients, cfo.coefficients)
+    });
+    vh::take_keygen_candidates();
+    let (fo, go, cfo) = out.ok()?;
+    let to64 = |v: &Vec<i16>| v.iter().map(|&x| x as i64).collect::<Vec<i64>>();
+    let (w, _) = spec::sk_widths(n);
+    let lim = (1i64 << (w - 1)) - 1;
+    if to64(&fo).iter().chain(to64(&go).iter()).any(|x| x.abs() > lim) || to64(&cfo).iter().any(|x| x.abs() > 127) {
+        return None;
+    }
+    let sk = monitored(|| V::sk_from_bytes(&spec::sk_encode(&to64(&fo), &to64(&go), &to64(&cfo)))).ok()?.ok()?;
+    let pk = V::pk_from_sk(&sk);
+    Some((to64(&fo), to64(&go), sk, pk))
+}
+
 /// COMPLETE planted candidates: the scripted generator dictates every sample of the first
 /// candidate (f', g) and of the second one (f, g), where (f, g) belongs to a valid key and f'
 /// differs from f in two coefficients so that f' VANISHES at one chosen slot of the crate's
